@@ -1,6 +1,6 @@
 //! Per-worker collector: counters, tag histograms, distinct-case set, samples, violations, journal.
 
-use refmodel::json::{obj, J};
+use crate::json::{obj, J};
 use std::collections::{BTreeMap, HashSet};
 use std::io::Write;
 
